@@ -879,16 +879,16 @@ func validateStringMap(field string, nodes []yamlMap, offsetLine int, lines diag
 		if !isTag(entry.val.ShortTag(), strTag) || kindMismatch(entry.val, yaml.ScalarNode) {
 			return false, ParseError{
 				Line: entry.val.Line + offsetLine,
-				Err:  fmt.Errorf("%s %s value must be a %s, got %s instead", field, entry.key.Value, describeTag(strTag), describeTag(entry.val.ShortTag())),
+				Err:  fmt.Errorf("%s %s value must be a %s, got %s instead", field, nodeValue(entry.key), describeTag(strTag), describeTag(entry.val.ShortTag())),
 			}, lines
 		}
-		if _, ok := names[entry.key.Value]; ok {
+		if _, ok := names[nodeValue(entry.key)]; ok {
 			return false, ParseError{
 				Line: entry.key.Line + offsetLine,
-				Err:  fmt.Errorf("duplicated %s key %s", field, entry.key.Value),
+				Err:  fmt.Errorf("duplicated %s key %s", field, nodeValue(entry.key)),
 			}, offsetLineRange(rangeFromYamlMaps(nodes), offsetLine)
 		}
-		names[entry.key.Value] = struct{}{}
+		names[nodeValue(entry.key)] = struct{}{}
 	}
 	return true, ParseError{}, lines
 }
